@@ -328,9 +328,12 @@ var portLock *os.File
 
 func freePort() (int, error) {
 	for try := 0; try < 200; try++ {
-		l, err := net.Listen("tcp", "127.0.0.1:0")
+		// a port below the range the kernel hands out to ":0" listeners and outgoing connections, so that no other process
+		// can be given it between this probe and the moment the api module binds it
+		probe := 20000 + int((time.Now().UnixNano()/1000+int64(os.Getpid())*7919+int64(try)*104729)%10000)
+		l, err := net.Listen("tcp", fmt.Sprintf("127.0.0.1:%d", probe))
 		if err != nil {
-			return 0, err
+			continue
 		}
 		p := l.Addr().(*net.TCPAddr).Port
 		_ = l.Close()
@@ -577,6 +580,23 @@ func exec1(o op) (r res) {
 		}
 		body, _ := io.ReadAll(resp.Body)
 		_ = resp.Body.Close()
+		if resp.StatusCode == http.StatusNotFound {
+			// is this the server of this process at all? (another process may have taken the probed port before the api
+			// module could bind it) - the ping endpoint of the api module answers on the real one
+			preq, _ := http.NewRequest(http.MethodGet, baseURL+"/api/v1/ping", nil)
+			preq.Header.Set("X-Verif-Perm", "4")
+			if pr, perr := client.Do(preq); perr != nil {
+				r.Err, r.Note = "infra", "404 and no ping: "+perr.Error()
+				return r
+			} else {
+				pb, _ := io.ReadAll(pr.Body)
+				_ = pr.Body.Close()
+				if pr.StatusCode != http.StatusOK || !strings.Contains(string(pb), "Pong") {
+					r.Err, r.Note = "infra", "404 from a server that does not answer ping: not this process"
+					return r
+				}
+			}
+		}
 		if resp.StatusCode != http.StatusOK {
 			r.Err, r.Note = "status:"+strconv.Itoa(resp.StatusCode), firstLines(string(body), 3)
 			return r
